@@ -844,11 +844,22 @@ pub fn emit_crate<'tcx>(tcx: TyCtxt<'tcx>) {
                 let mut items = Vec::new();
                 for &ai in tcx.associated_item_def_ids(did).iter() {
                     let assoc = tcx.associated_item(ai);
-                    items.push(J::Obj(vec![
+                    let mut io: Vec<(&'static str, J)> = vec![
                         ("d", cx.def(ai)),
                         ("n", J::s(assoc.name().to_string())),
                         ("default", J::Bool(assoc.defaultness(tcx).has_value())),
-                    ]));
+                    ];
+                    if matches!(tcx.def_kind(ai), DefKind::AssocFn) {
+                        let mut an = Vec::new();
+                        for id in tcx.fn_arg_idents(ai).iter() {
+                            an.push(match id {
+                                Some(i) => J::s(i.name.to_string()),
+                                None => J::Null,
+                            });
+                        }
+                        io.push(("args", J::Arr(an)));
+                    }
+                    items.push(J::Obj(io));
                 }
                 traits.push(J::Obj(vec![("d", cx.def(did)), ("sp", cx.span(item.span)), ("items", J::Arr(items)), ("test", J::Bool(test))]));
             }
